@@ -130,6 +130,18 @@ def make_case(rng):
         a = pre_a + ["Show", "SUB Show", local, "  " + decl] + ["  " + u for u in uses_a] + ["END SUB"]
         b = pre_b + ["Show", "SUB Show", local] + ["  " + u for u in uses_b] + ["END SUB"]
         return {"A": "\n".join(a) + "\n", "B": "\n".join(b) + "\n", "expr": e, "name": name, "where": "inside_sub_shadowing", "suffix": suffix, "kind": kind}
+    num_bare = [c[0] for c in g.consts if c[1] == "num" and not c[0].endswith("$")]
+    if where == "inside_sub" and kind == "num" and num_bare and rng.random() < 0.4:
+        # a parameter of the SUB has the name of a global constant: inside the SUB the name means the parameter, so an
+        # expression that uses it is not constant (rejected), or else it must mean the same in both programs
+        shadow = rng.choice(num_bare)
+        e2 = "%s %s (%s)" % (shadow, rng.choice(["+", "-", "*"]), e) if rng.random() < 0.7 else "(%s) + %s" % (e, shadow)
+        decl2 = "CONST %s = %s" % (name, e2)
+        uses_b2 = [u.replace("(%s)" % e, "(%s)" % e2) for u in uses_b]
+        arg = rng.choice(["5", "-3", "1000", "0.5"])
+        a = pre_a + ["Show " + arg, "SUB Show (%s)" % shadow, "  " + decl2] + ["  " + u for u in uses_a] + ["END SUB"]
+        b = pre_b + ["Show " + arg, "SUB Show (%s)" % shadow] + ["  " + u for u in uses_b2] + ["END SUB"]
+        return {"A": "\n".join(a) + "\n", "B": "\n".join(b) + "\n", "expr": e2, "name": name, "where": "inside_sub_param_hides_const", "suffix": suffix, "kind": kind}
     if where == "global":
         a = pre_a + [decl] + uses_a
         b = pre_b + uses_b
@@ -163,6 +175,9 @@ def judge(case, ra, rb):
         return ("DISCARD", "const_form_parse_error")
     if oa[0] == "lint_error":
         kind = oa[1]
+        if case["where"] == "inside_sub_param_hides_const" and kind == "InvalidConstant":
+            # the expression names a parameter: it is not a constant expression
+            return None
         if kind == "Overflow":
             if not (ob[0] == "error" and ob[1] == 6):
                 return ("rejected_overflow_but_runtime:%s" % (ob[1] if ob[0] == "error" else "ok"),
